@@ -350,6 +350,7 @@ async def run_connections(st, uni, nconns, schedule, sid_map, rate_limiter=None,
        ("stall", c) / ("unstall", c)     the peer stops / resumes reading: ws_send blocks meanwhile
        ("idle",)                         run until nothing can make progress without the environment
        ("yield", k)                      let the loop run k iterations
+       ("do", async fn(recorder))        an operator action between messages (awaited in the driver's task)
     returns (log lines, per-connection info)
     """
     from nostr_relay import web
@@ -480,6 +481,9 @@ async def run_connections(st, uni, nconns, schedule, sid_map, rate_limiter=None,
                 # dynamic messages: fn(recorder) -> [(c, frame text, abstract message)], built from what was observed so far
                 for c, text, abstract in step[1](rec):
                     conns[c].inbox.put_nowait(("msg", text, abstract))
+            elif kind == "do":
+                # something the operator does while connections are open (an async function of the recorder), e.g. a role assignment
+                await step[1](rec)
             elif kind == "disc":
                 # a reading peer goes away gracefully: what the relay already had to say is still delivered, then ws_recv
                 # reports the disconnect.  A stalled peer that goes away makes the pending ws_send fail, as a socket would.
